@@ -106,14 +106,19 @@ static SchedA g_schedA;
 static int32_t g_order;  // which path dispatched (bit 1 completer, 2 registrar re-check, 4 then() at once)
 static int g_who;  // sequential mode: the role main is playing (kCompleterTid completer, else registrar)
 // continuation's schedulable: queues; records who dispatched and in which state
+// (its counters are globals, not members: the chain walk reaches the schedulable through a `void*` stored in the link,
+// and the link pointer itself went through an integer (std::atomic<ThenChain*> is accessed as i64): CBMC knows the object
+// of such a pointer but not its offset, and a member update through it becomes an update of every candidate object at a
+// symbolic offset.  Measured: 14 GB in conversion with member counters.)
+static int32_t g_disp_n;
+static int32_t g_disp_forced;
 struct SchedC {
-  int32_t n = 0;
-  int32_t forced = 0;
-  void put() {
+  int32_t unused = 0;
+  static void put() {
     VfAtomic a;
     vf_check(g_implA->ready(), "continuation is dispatched to its schedulable although the antecedent is not ready");
-    vf_check(n < VF_REGISTRARS, "more continuations dispatched than registered (a continuation is dispatched twice)");
-    ++n;
+    vf_check(g_disp_n < VF_REGISTRARS, "more continuations dispatched than registered (a continuation is dispatched twice)");
+    ++g_disp_n;
     // (three separate statements: if/else-if arms would be merged into one call with a non-literal label)
     bool byCompleter = (VF_SEQ_ORDER ? g_who : vf_self()) == kCompleterTid;
     if (byCompleter) {
@@ -132,7 +137,7 @@ struct SchedC {
     put();
   }
   void schedule(dispenso::OnceFunction, dispenso::ForceQueuingTag) {
-    ++forced;
+    ++g_disp_forced;
     put();
   }
 };
@@ -221,9 +226,9 @@ extern "C" void vf_main() {
   vf_reach("all threads finished");
 
   vf_check(g_runsA == 1, "antecedent functor ran exactly once");
-  vf_check(g_schedC.n == VF_REGISTRARS, "every continuation was dispatched to its schedulable exactly once (none lost)");
+  vf_check(g_disp_n == VF_REGISTRARS, "every continuation was dispatched to its schedulable exactly once (none lost)");
   int32_t wantForced = (g_async[0] ? 1 : 0) + ((VF_REGISTRARS >= 2 && g_async[1]) ? 1 : 0);
-  vf_check(g_schedC.forced == wantForced, "std::launch::async continuations are dispatched with the forcing tag, others without");
+  vf_check(g_disp_forced == wantForced, "std::launch::async continuations are dispatched with the forcing tag, others without");
   vf_check(g_runsC[0] == 0 && g_runsC[1] == 0, "continuations do not run before their schedulable runs them (nobody waited on them)");
   vf_check(g_links == g_link_frees, "every then-chain link was released");
   vf_check(g_implA->thenChain_.load(std::memory_order_relaxed) == nullptr, "the then-chain is empty once completer and registrars finished");
